@@ -5,7 +5,7 @@ MUST_ENTER = [('a5/core/serialization.py', 'serialize'), ('a5/core/serialization
               ('a5/core/serialization.py', 'get_resolution')]
 RULE = ('cells (face, segment, S, r): complete enumeration of all ids r<=6 (quick) / 8 (thorough) through cell_to_children(0, r); '
         'structured encode/decode for every (face, segment, r in 0..30) with S in {0,1,max,max-1,single bits, top-two bits, '
-        'marker-adjacent bits, random}; over-range S must raise; the same cell described by dicts of different provenance (fresh, plain dict, decoded neighbour edited with update / |= / item assignment, copies); 6 concurrent threads encoding / decoding different cells; ambient post-conditions on every serialize/deserialize executed '
+        'marker-adjacent bits, random}; over-range S must raise; the same cell described by dicts of different provenance (fresh, plain dict, decoded neighbour edited with update / |= / item assignment, copies); 6 concurrent threads encoding / decoding different cells; a second codec call on another cell injected at every LINE event of a codec call; ambient post-conditions on every serialize/deserialize executed '
         'inside lonlat_to_cell / cell_to_children / cell_to_parent / compact. The bit layout is not pinned: only range, '
         'resolution, bijection and counts are demanded. distinct = distinct (face, segment, S, r) or id; non-trivial = r>=2 '
         '(position bits present) or enumerated id')
@@ -29,6 +29,7 @@ def plan(tier, seed):
     for f in range(12):
         specs.append({'part': 'structured', 'face': f, 'nrand': nrand})
     specs.append({'part': 'threads', 'seconds': 4 if tier == 'quick' else 30})
+    specs.append({'part': 'interleave', 'n': 150 if tier == 'quick' else 3000})
     for i in range(3 if tier == 'quick' else 12):
         specs.append({'part': 'ambient', 'n': 1500 if tier == 'quick' else 8000})
     return specs
@@ -121,6 +122,34 @@ def run_shard(spec, ctx):
                     cells_seen[k] = i
             ctx.count('enumerated_r%02d' % r, len(ids))
         ctx.sample({'id': ids[len(ids) // 2], 'r': r, 'decoded': list(key_of(ser.deserialize(ids[len(ids) // 2])))})
+    elif part == 'interleave':
+        # line-granular preemption of one codec call by another on a different cell (sys.monitoring injector, every LINE event of
+        # the preempted call): encode / decode / get_resolution must return what they return alone, and so must the next call
+        import os
+        from rv import sched
+        inj = sched.Injector(os.path.dirname(os.path.realpath(a5.__file__)))
+        for _ in range(spec['n']):
+            c1 = gen.random_cell(ctx.rnd, a5, ctx.rnd.randint(0, 29))
+            c2 = gen.random_cell(ctx.rnd, a5, ctx.rnd.randint(0, 29))
+            d1 = ser.deserialize(c1)
+            fns = {'get_resolution': (lambda x=c1: ser.get_resolution(x)), 'deserialize': (lambda x=c1: key_of(ser.deserialize(x))),
+                   'serialize': (lambda d=d1: ser.serialize(d))}
+            B = ctx.rnd.choice([lambda x=c2: ser.get_resolution(x), lambda x=c2: key_of(ser.deserialize(x)),
+                                lambda x=c2: ser.serialize(ser.deserialize(x))])
+            wantB = B()
+            for name, A in fns.items():
+                want = A()
+                n_ev = inj.events_in(A, 'line')
+                for k in range(1, n_ev + 1):
+                    st, res = inj.run(A, B, k, 'line')
+                    ctx.case(('interleave', c1, c2, name, k))
+                    ctx.count('codec_interleavings')
+                    if st != 'ok' or res != want or inj.bexc is not None or (inj.where is not None and inj.bres != wantB):
+                        ctx.fail('wrong_when_interleaved', {'id': c1, 'other': c2, 'fn': name, 'k': k}, got=repr(res), want=repr(want))
+                    if A() != want:
+                        ctx.fail('wrong_after_interleaving', {'id': c1, 'other': c2, 'fn': name, 'k': k})
+        inj.close()
+        ctx.sample({'interleaved': [c1, c2]})
     elif part == 'threads':
         # concurrent callers encoding / decoding DIFFERENT cells (1 us switch interval): every result must equal the single-threaded one
         import sys
